@@ -79,6 +79,7 @@ func (ups *Http) Connect(manager cert.TlsConfig, mustSecure bool) error {
 	if err != nil {
 		return errors.Wrapf(err, "Could not open connection")
 	} else if mustSecure && !cc.Secure() {
+		streams.TryClose(cc)
 		return errors.Errorf("Could not establish a secure connection to %v", ups.Address)
 	} else {
 		stream = cc
